@@ -112,6 +112,8 @@ def _kind(repo, ci, fi, e, depth=0):
                         return (want, e) if want != 'unknown' else ('text' if _looks_textual(meth) else 'unknown', e)
             return 'total', e
         return 'unknown', e
+    if isinstance(e, ast.Call) and isinstance(e.func, ast.Name) and _dyn_dispatch_kind(repo, ci, fi, e) is not None:
+        return _dyn_dispatch_kind(repo, ci, fi, e), e      # ``_method = getattr(self, 'to_' + fmt); _method()``: a serialiser's text
     if isinstance(e, ast.Call) and isinstance(e.func, ast.Name):
         kind, m, obj = repo.resolve(fi.mod, e.func.id)
         if kind == 'func' and m is not None and not m.external:
